@@ -140,6 +140,8 @@ impl Generator
 		self.local_parameters.clear();
 		self.local_variables.clear();
 		self.local_labeled_blocks.clear();
+		// Intrinsics are declared per module.
+		self.used_intrinsics.clear();
 
 		Ok(())
 	}
